@@ -483,6 +483,11 @@ class TermBuilder:
             for p in path[1:]:
                 t = canon_item(t, p)
             return t
+        # for k in d.keys() / for k in <**kwargs formal>
+        if it[0] == "call" and it[1][0] == "attr" and it[1][2] == "keys" and not it[2] and not path:
+            return ("key", it[1][1], ("idx", lid, "items"))
+        if it[0] == "param" and self.fn.node.args.kwarg is not None and self.fn.node.args.kwarg.arg == it[1] and not path:
+            return ("key", it, ("idx", lid, "items"))
         idx = ("idx", lid, "iter")
         t = canon_sub(it, idx)
         for p in path:
@@ -519,7 +524,7 @@ class TermBuilder:
                 if at is not None and self.fn.parent is not None:
                     reach = [d for d in prd.reaching(ident, at) if d.kind != "del"]
                     # closures see later rebinding too; if the name is rebound after the def use all
-                    later = [d for d in defs if d not in reach]
+                    later = [d for d in defs if d not in reach and d.node != ENTRY and pb.cfg.reachable(at, d.node)]
                     if reach and not later:
                         return phi(pb.def_term(d) for d in reach)
                 return phi(pb.def_term(d) for d in defs)
